@@ -83,6 +83,46 @@ func c25(c *core.Ctx) {
 	c.Rule("C25.cancellable", "every goroutine started by the client side (packages opcua, monitor, and the client channel goroutines of uasc) can be stopped: each blocking select / receive reachable inside it has an arm on a shutdown signal (ctx.Done(), closing, disconnected, closed) or is a bounded timer wait; waits on the renewal gates are released by SecureChannel.close", 12)
 	c.Rule("C25.close", "Client.Close reaches, on every path, the cancel function stored at Connect (unless nil), SecureChannel.Close (unless nil) and conn.Close (unless nil); SecureChannel.close closes the closing channel on every path and releases both renewal gates first", 4)
 
+	// a failed Dial gives the connection back: the secure channel's dispatcher goroutine is already reading from it
+	c.Rule("C25.dial", "in Client.Dial every error return after the transport connection was established passes (*uacp.Conn).Close (or SecureChannel.Close): otherwise each failed reconnect attempt leaves a connection and the dispatcher goroutine blocked on it behind, and Close cannot reach them", 2)
+	if dial := fn(c, "opcua", "Client", "Dial"); dial != nil {
+		connClose := obj(c, "uacp", "Conn", "Close")
+		scCloseO := obj(c, "uasc", "SecureChannel", "Close")
+		var dialCall ssa.CallInstruction
+		for _, call := range ssax.Calls(dial) {
+			cc := call.Common()
+			if cc.IsInvoke() && cc.Method.Name() == "Dial" {
+				dialCall = call
+			} else if cal := ssax.Callee(call); cal != nil && cal.Name() == "Dial" && cal.Pkg() != nil && cal.Pkg().Name() == "uacp" {
+				dialCall = call
+			}
+		}
+		if dialCall == nil {
+			c.Fatal("unresolved anchor: the transport dial call in Client.Dial")
+		} else {
+			isClose := func(in ssa.Instruction) bool {
+				call, ok := in.(ssa.CallInstruction)
+				if !ok {
+					return false
+				}
+				cal := ssax.Callee(call)
+				return cal != nil && (cal == connClose || cal == scCloseO)
+			}
+			n := 0
+			for _, r := range ssax.Returns(dial) {
+				if len(r.Results) == 0 || ssax.IsNil(ssax.RetVal(r, len(r.Results)-1)) || !okEdge(r, dialCall) {
+					continue
+				}
+				n++
+				leak, tr := ssax.Reach(dial, dialCall, func(in ssa.Instruction) bool { return in == ssa.Instruction(r) }, isClose, nil)
+				c.Ob("C25.dial", fname(dial)+"·error return after the connection was established", pos(c, r), !leak, "every path from the dial to this error return closes the connection: "+boolStr(!leak), trace(c, tr)...)
+			}
+			if n == 0 {
+				c.Ob("C25.dial", fname(dial)+"·error return after the connection was established", c.P.Pos(dial.Pos()), false, "no error return found behind the dial call")
+			}
+		}
+	}
+
 	roots := goRoots(c, "opcua", "monitor", "uasc")
 	c.Count("goroutine roots", len(roots))
 	unlockM := obj(c, "uasc", "conditionLocker", "unlock")
@@ -249,6 +289,7 @@ func c26(c *core.Ctx) {
 	c.Rule("C26.exhaustive", "every value of the reconnectAction enumeration has a case in the state switch", 1)
 	c.Rule("C26.acks", "Client.pendingAcks is read and written only with subMux held (written only with the write lock), and only by handleAcks, handleNotification, sendPublishRequest, publish and the constructor; an acknowledgement is appended only on the data-notification path", 6)
 
+	c26Items(c)
 	pk := c.P.Lib["opcua"]
 	var mon *ast.FuncDecl
 	for _, file := range pk.Syntax {
